@@ -22,11 +22,19 @@
    - [two_step_list]          list hop: collect, de-duplicate, one _entities call, merge item-wise
    - [two_step_abs]           abstract hop: runtime type read from __typename (ProofsAbstractHop.v)
    - [plan_of] / [run_plan] / [plan_ok_b]  the depth-1 plan language, its execution and checker (ProofsPlan*.v)
-   Examples: Examples.v, ExamplesWf.v, ExamplesList.v, ExamplesAbstract.v, ExamplesPlan.v *)
+   - [plan_static_b] / [univ_contract_b]  the plan checker split into a universe-free validator and an explicit,
+                              checkable contract on the universe (ProofsTvStatic.v)
+   - [dfield2] / [gateway2] / [tv2_static_b]  the form a REAL plan is translated to (one root fetch per root
+                              subgraph, entity fetches with the planner's __typename, the client's selection order),
+                              its execution as the gateway model, and the validator run on real plans
+                              (ProofsPlan2*.v, ProofsTv*.v); [sres_weq] same data, errors iff; [sres_peq] / [jperm]
+                              same JSON value up to the order of object members, errors iff
+   Examples: Examples.v, ExamplesWf.v, ExamplesList.v, ExamplesAbstract.v, ExamplesPlan.v, ExamplesTv.v *)
 From Coq Require Import PeanoNat Lia.
 From Gv Require Import lib.Bytes lib.Json lib.Gql lib.Exec
      C01.ProofsBase C01.ProofsFuel C01.ProofsSplit C01.ProofsSim C01.ProofsJoin C01.ProofsOverlap C01.ProofsTwoStep
-     C01.ProofsCtxBase C01.ProofsCtx C01.ProofsTwoStepWf C01.ProofsDedup C01.ProofsViol C01.ProofsListHop C01.ProofsListHopWf C01.ProofsAbstractHop C01.ProofsPlanAlg C01.ProofsPlan C01.ProofsPlanOk.
+     C01.ProofsCtxBase C01.ProofsCtx C01.ProofsTwoStepWf C01.ProofsDedup C01.ProofsViol C01.ProofsListHop C01.ProofsListHopWf C01.ProofsListHopTn C01.ProofsAbstractHop C01.ProofsPlanAlg C01.ProofsPlan C01.ProofsPlanOk
+     C01.ProofsTvStatic C01.ProofsTvDefs C01.ProofsTvHidden C01.ProofsPlanGen C01.ProofsPlan2 C01.ProofsPlan2Link C01.ProofsPlan2Root C01.ProofsTvOrder C01.ProofsTvMain.
 Open Scope N_scope.
 
 (* ---- E1: a result without XOutOfFuel does not change when more fuel is supplied ---- *)
@@ -796,3 +804,161 @@ Theorem plan_ok_sound_keys_partial :
 Proof. exact ProofsPlanOk.plan_ok_sound_keys_partial. Qed.
 Print Assumptions plan_ok_sound_keys_partial.
 
+
+
+(* ---- (5) translation validation: the validator that is RUN on the real planner's plans ---- *)
+(* 5a. [plan_ok_b] reads the universe only through a checkable contract: a universe-free validator *)
+Theorem plan_static_implies_plan_ok :
+  forall (sc : schema) (frags : list fragment) (vdsM : list vardef) (supM : list (bytes * json))
+  (sc0 : schema) (g0 kq : nat) (decls : list (name * list name)) (rdecls : list rdecl)
+  (U : universe) (eQ : entity) (ds : list dfield),
+  plan_static_b sc frags vdsM supM sc0 g0 kq decls rdecls ds = true ->
+  univ_contract_b sc decls rdecls (plan_subs sc0 ds) U = true ->
+  find_entity U (s_query sc) [] = Some eQ -> plan_ok_b U sc frags vdsM supM sc0 g0 kq decls ds = true.
+Proof. exact ProofsTvStatic.plan_static_ok. Qed.
+Print Assumptions plan_static_implies_plan_ok.
+
+Theorem plan_ok_valid_all_universes :
+  forall (sc : schema) (frags : list fragment) (vdsM : list vardef) (supM : list (bytes * json))
+  (sc0 : schema) (g0 kq : nat) (decls : list (name * list name)) (rdecls : list rdecl)
+  (ds : list dfield),
+  plan_static_b sc frags vdsM supM sc0 g0 kq decls rdecls ds = true ->
+  forall (U : universe) (eQ : entity),
+  univ_contract_b sc decls rdecls (plan_subs sc0 ds) U = true ->
+  find_entity U (s_query sc) [] = Some eQ ->
+  forall fM f1 f2 : nat,
+  no_oof (snd (mono_plan U sc frags vdsM supM eQ fM ds)) = true ->
+  (length ds + 2 <= fM)%nat ->
+  (plan_fuel g0 fM ds <= f1)%nat ->
+  (plan_fuel g0 fM ds + g0 <= f2)%nat ->
+  fst (run_plan U sc frags vdsM supM eQ f1 f2 (plan_of sc frags vdsM supM sc0 g0 ds)) =
+  fst (mono_plan U sc frags vdsM supM eQ fM ds) /\
+  (snd (run_plan U sc frags vdsM supM eQ f1 f2 (plan_of sc frags vdsM supM sc0 g0 ds)) = [] <->
+  snd (mono_plan U sc frags vdsM supM eQ fM ds) = []).
+Proof. exact ProofsTvStatic.plan_ok_valid_all_universes. Qed.
+Print Assumptions plan_ok_valid_all_universes.
+
+(* 5b. the planner's __typename at the head of every entity selection: same items with one more member, same errors *)
+Theorem entities_typename_transparent :
+  forall (sc : schema) (U : universe) (frags : list fragment) (vds : list vardef)
+  (T : name) (selB : list selection) (supplied : json) (f : nat),
+  sels_top_nokey s_typename selB = true ->
+  no_oof (rs_errs (execute f sc U Sub (entities_doc vds T selB frags) None supplied)) = true ->
+  rs_data (execute f sc U Sub (entities_doc vds T selB frags) None supplied) =
+  strip_resp_data
+  (rs_data (execute (S f) sc U Sub (entities_doc vds T (tn_sel :: selB) frags) None supplied)) /\
+  rs_errs (execute (S f) sc U Sub (entities_doc vds T (tn_sel :: selB) frags) None supplied) =
+  rs_errs (execute f sc U Sub (entities_doc vds T selB frags) None supplied).
+Proof. exact ProofsTvHidden.execute_entities_tn. Qed.
+Print Assumptions entities_typename_transparent.
+
+(* 5c. the order of the selections of a selection set only permutes the members *)
+Theorem exec_interleave :
+  forall (sc : schema) (U : universe) (frags : list fragment) (vars : list (bytes * json))
+  (md : mode) (C : nat) (objty : name) (ov : oval) (ts : list (bool * selection))
+  (p : list pel) (flI flA flB : list selection),
+  flatten sc frags vars C objty (map snd ts) = FlatOk flI ->
+  flatten sc frags vars C objty (sel_untagged ts) = FlatOk flA ->
+  flatten sc frags vars C objty (sel_tagged ts) = FlatOk flB ->
+  flatten sc frags vars C objty (sel_untagged ts ++ sel_tagged ts) = FlatOk (flA ++ flB) ->
+  keys_disjoint flA flB = true ->
+  sres_p1 (exec_sels sc U frags vars md C objty ov (map snd ts) p)
+  (exec_sels sc U frags vars md C objty ov (sel_untagged ts ++ sel_tagged ts) p).
+Proof. exact ProofsTvOrder.exec_interleave. Qed.
+Print Assumptions exec_interleave.
+
+(* 5d. the plan algebra, generic in the kind of root field *)
+Theorem plan_algebra_generic :
+  forall (fld : Type) (key : fld -> name) (a_of m_of : fld -> sres) (tr : fld -> sres -> sres)
+  (has_fetch : fld -> bool),
+  (forall d : fld, one_member (key d) (a_of d)) ->
+  (forall d : fld, one_member (key d) (m_of d)) ->
+  (forall (d : fld) (e : list xerr), a_of d = (None, e) -> e <> []) ->
+  (forall (d : fld) (e : list xerr), m_of d = (None, e) -> e <> []) ->
+  (forall (d : fld) (e : list xerr), tr d (None, e) = (None, e)) ->
+  (forall (d : fld) (o : option (list (bytes * json))) (e : list xerr),
+  fst (tr d (o, e)) = fst (tr d (o, [])) /\
+  (snd (tr d (o, e)) = [] <-> e = [] /\ snd (tr d (o, [])) = [])) ->
+  (forall d : fld, has_fetch d = false -> forall r : sres, tr d r = r) ->
+  forall ds : list fld,
+  Forall (wlink fld a_of m_of tr) ds ->
+  names_distinct (map key ds) = true ->
+  no_oof (snd (Mfold fld m_of ds)) = true ->
+  sres_weq (run_fetches (gefs fld key tr has_fetch ds) (Rfold fld a_of ds)) (Mfold fld m_of ds).
+Proof. exact ProofsPlanGen.gen_alg. Qed.
+Print Assumptions plan_algebra_generic.
+
+(* 5e. the gateway model on a translated real plan: several root subgraphs, entity fetches with the planner's
+   __typename, @requires inputs in the representation -- data of the monolith (root part first), errors iff *)
+Theorem plan2_sound :
+  forall (U : universe) (sc : schema) (subs : list schema) (frags : list fragment)
+  (vdsM : list vardef) (supM : list (bytes * json)) (eQ : entity) (g0 kq f1 f2 fM : nat)
+  (decls : list (name * list name)) (rdecls : list rdecl) (tn : bool),
+  find_entity U (s_query sc) [] = Some eQ ->
+  forall ds : list dfield2,
+  plan2_static_b sc subs frags vdsM supM g0 kq decls rdecls tn ds = true ->
+  univ2_contract_b sc subs decls rdecls U = true ->
+  no_oof (snd (mono_ab2 U sc frags vdsM supM eQ fM ds)) = true ->
+  (length ds + 2 <= fM)%nat ->
+  (plan2_fuel g0 fM ds <= f1)%nat ->
+  (plan2_fuel g0 fM ds + g0 <= f2)%nat ->
+  sres_weq (gateway2 U sc subs frags vdsM supM eQ g0 f1 f2 tn ds)
+  (mono_ab2 U sc frags vdsM supM eQ fM ds).
+Proof. exact ProofsPlan2Root.plan2_sound. Qed.
+Print Assumptions plan2_sound.
+
+(* 5f. the monolith on the client's operation and on the plan theorem's operation: same JSON value *)
+Theorem mono_order :
+  forall (sc : schema) (subs : list schema) (frags : list fragment) (vdsM : list vardef)
+  (supM : list (bytes * json)) (g0 kq : nat) (decls : list (name * list name))
+  (rdecls : list rdecl) (tn : bool) (U : universe) (eQ : entity) (C : nat)
+  (ds : list dfield2),
+  tv2_static_b sc subs frags vdsM supM g0 kq decls rdecls tn ds = true ->
+  univ2_contract_b sc subs decls rdecls U = true ->
+  find_entity U (s_query sc) [] = Some eQ ->
+  (g0 + g0 + 7 <= C)%nat ->
+  (length ds < C)%nat ->
+  sres_mpeq (mono_client2 U sc frags vdsM supM eQ C ds) (mono_ab2 U sc frags vdsM supM eQ C ds).
+Proof. exact ProofsTvMain.mono_order. Qed.
+Print Assumptions mono_order.
+
+(* 5g. THE THEOREM OF THE VALIDATOR: tv2_static_b accepts the translation of a real plan  ->  for every universe
+   of the contract the gateway model returns the JSON value a single server over the supergraph returns for
+   the client's operation (object member order aside), and has errors iff that server has *)
+Theorem plan_ok_valid_all_universes_real_plans :
+  forall (sc : schema) (subs : list schema) (frags : list fragment) (vdsM : list vardef)
+  (supM : list (bytes * json)) (g0 kq : nat) (decls : list (name * list name))
+  (rdecls : list rdecl) (tn : bool) (ds : list dfield2),
+  tv2_static_b sc subs frags vdsM supM g0 kq decls rdecls tn ds = true ->
+  forall (U : universe) (eQ : entity),
+  univ2_contract_b sc subs decls rdecls U = true ->
+  find_entity U (s_query sc) [] = Some eQ ->
+  forall fM fM' f1 f2 : nat,
+  no_oof (snd (mono_ab2 U sc frags vdsM supM eQ fM ds)) = true ->
+  no_oof (snd (mono_client2 U sc frags vdsM supM eQ fM' ds)) = true ->
+  (length ds + 2 <= fM)%nat ->
+  (plan2_fuel g0 fM ds <= f1)%nat ->
+  (plan2_fuel g0 fM ds + g0 <= f2)%nat ->
+  sres_peq (mono_client2 U sc frags vdsM supM eQ fM' ds)
+  (gateway2 U sc subs frags vdsM supM eQ g0 f1 f2 tn ds).
+Proof. exact ProofsTvMain.tv2_sound. Qed.
+Print Assumptions plan_ok_valid_all_universes_real_plans.
+
+Theorem plan_ok_valid_all_universes_execute :
+  forall (sc : schema) (subs : list schema) (frags : list fragment) (vdsM : list vardef)
+  (supM : list (bytes * json)) (g0 kq : nat) (decls : list (name * list name))
+  (rdecls : list rdecl) (tn : bool) (ds : list dfield2),
+  tv2_static_b sc subs frags vdsM supM g0 kq decls rdecls tn ds = true ->
+  forall (U : universe) (eQ : entity),
+  univ2_contract_b sc subs decls rdecls U = true ->
+  find_entity U (s_query sc) [] = Some eQ ->
+  forall fM fM' f1 f2 : nat,
+  no_oof (snd (mono_ab2 U sc frags vdsM supM eQ fM ds)) = true ->
+  no_oof (rs_errs (execute fM' sc U Mono (client_doc2 vdsM frags ds) None (JObj supM))) = true ->
+  (length ds + 2 <= fM)%nat ->
+  (plan2_fuel g0 fM ds <= f1)%nat ->
+  (plan2_fuel g0 fM ds + g0 <= f2)%nat ->
+  sres_peq (sres_of_response (execute fM' sc U Mono (client_doc2 vdsM frags ds) None (JObj supM)))
+  (gateway2 U sc subs frags vdsM supM eQ g0 f1 f2 tn ds).
+Proof. exact ProofsTvMain.tv2_sound_execute. Qed.
+Print Assumptions plan_ok_valid_all_universes_execute.
